@@ -18,10 +18,34 @@ EXTENDS Naturals, Integers, Sequences, FiniteSets, TLC
 
 CONSTANTS Ws,        \* window sizes explored
           MaxN,      \* sequence numbers 0..MaxN
-          MaxLen     \* arrivals per behaviour
+          MaxLen,    \* arrivals per behaviour
+          Hows,      \* forgery flavours explored (subset of Forgeries)
+          EchoKinds, \* Echo flavours explored (subset of Echos)
+          Clients    \* senders sharing the peer's side of the one security context
 
-Echos == {"none", "stale", "fresh"}   \* Echo option of the request: absent, a value this
-                                      \* process did not issue, the value it issued
+(* Echo option of the request:                                              *)
+(*   none   absent                                                          *)
+(*   stale  a value no process ever issued                                  *)
+(*   old    the value an EARLIER process lifetime issued (before the state  *)
+(*          was lost), obtained then through a real 4.01 exchange           *)
+(*   near   the issued value cut short or extended by a byte                *)
+(*   fresh  the value this process issued                                   *)
+Echos == {"none", "stale", "old", "near", "fresh"}
+
+(* How a message that fails authentication was made:                        *)
+(*   flip   a bit-flipped copy of the genuine message with that number (the *)
+(*          very bytes that may arrive, untampered, later or earlier)       *)
+(*   trunc  the genuine message with its ciphertext cut short               *)
+(*   key    protected under ANOTHER context (other master secret) with the  *)
+(*          same sender ID and that number                                  *)
+(*   ctx    protected under a context with the same sender ID and secret    *)
+(*          but another ID context (sent along as kid context)              *)
+(*   piv    a genuine message of a neighbouring number whose Partial IV was *)
+(*          rewritten to carry this number                                  *)
+Forgeries == {"flip", "trunc", "key", "ctx", "piv"}
+RespForgeries == {"flip", "trunc", "key"}       \* the ones that exist for responses
+
+ASSUME Hows \subseteq Forgeries /\ EchoKinds \subseteq Echos
 
 Max(S) == CHOOSE x \in S : \A y \in S : y <= x
 MaxOr(S, d) == IF S = {} THEN d ELSE Max(S)
@@ -29,13 +53,18 @@ Max2(a, b) == IF a >= b THEN a ELSE b
 ToSet(s) == {s[i] : i \in 1..Len(s)}
 
 (***************************************************************************)
-(* Monitor.  An event is a record [k, n, auth, echo, res, idx, seen]:      *)
+(* Monitor.  An event is a record [k, c, n, auth, how, echo, res, idx,     *)
+(* seen]:                                                                  *)
 (*   k     "req": a protected request with sender sequence number n       *)
-(*         arrives;  "resp": the judged context unprotects an authentic    *)
-(*         RESPONSE of the peer that carries its own Partial IV n (it      *)
-(*         answers a request this context sent: role reversal / Observe)   *)
+(*         arrives;  "resp": the judged context unprotects a RESPONSE of   *)
+(*         the peer that carries its own Partial IV n (it answers a        *)
+(*         request this context sent: role reversal / Observe)             *)
+(*   c     which of the peer's senders made it (vocabulary of the driver:  *)
+(*         own message cache, own knowledge of the Echo value; the window  *)
+(*         is one and the same)                                            *)
 (*   auth  TRUE: protected by the genuine peer and unmodified              *)
 (*         FALSE: valid-looking partial IV, fails authentication           *)
+(*   how   "genuine" (= auth) or the forgery flavour, see Forgeries        *)
 (*   res   "acc" unprotect() returned a message / "rej" it raised          *)
 (*   idx, seen   projection of the window after the event: lowest tracked  *)
 (*         number and set of numbers marked seen; idx = -1 when the        *)
@@ -52,8 +81,8 @@ ObsInit(w, init, hasEcho) ==
     hi     |-> -1,       \* largest accepted number (-1: none)
     floor  |-> 0,        \* numbers below have fallen out of the window
     forged |-> {},       \* numbers a forgery carried since they were last accepted
-    pidx   |-> -1,       \* projection after the previous event
-    pseen  |-> {},
+    pidx   |-> IF init THEN 0 ELSE -2,   \* projection after the previous event (start: the
+    pseen  |-> {},                       \* empty window / the uninitialised one)
     bad    |-> {} ]      \* clauses found false
 
 Flag(o, cs) == [o EXCEPT !.bad = @ \cup cs]
@@ -93,8 +122,15 @@ JudgeState(o, e) ==    \* a message failing authentication never marks or advanc
 (* configured (unprotect's try_initialize: it answers a request this process *)
 (* sent, so it is as fresh as an echoed value); the monitor follows the code *)
 (* there: afterwards the window is {seen: n, below: all}.                    *)
+(* A response that fails authentication (forged, tampered, protected under   *)
+(* another context) must have no effect whatsoever: not accepted, and the    *)
+(* window -- initialised or not -- as before.                                *)
 JudgeResp(o, e) ==
-  IF o.init /\ e.idx # -1 /\ o.pidx # -1 /\ (e.idx # o.pidx \/ e.seen # o.pseen)
+  IF ~e.auth
+    THEN IF e.res = "acc" THEN {"C12_ForgeryNoEffect"}
+         ELSE IF e.idx # -1 /\ o.pidx # -1 /\ (e.idx # o.pidx \/ e.seen # o.pseen)
+           THEN {"C12_ForgeryNoEffect"} ELSE {}
+  ELSE IF o.init /\ e.idx # -1 /\ o.pidx # -1 /\ (e.idx # o.pidx \/ e.seen # o.pseen)
     THEN {"C12_ResponseNoEffect"}
   ELSE IF ~o.init /\ ~o.hasEcho /\ e.idx >= 0
     THEN {"C12_UninitialisedNeedsEcho"}      \* initialised although nothing fresh can exist
@@ -102,7 +138,7 @@ JudgeResp(o, e) ==
 
 ObsResp(o, e) ==
   LET o1 == Flag(o, JudgeResp(o, e))
-      inits == ~o.init /\ o.hasEcho /\ e.res = "acc"
+      inits == ~o.init /\ o.hasEcho /\ e.res = "acc" /\ e.idx # -2   \* (-2: the code chose not to)
   IN [o1 EXCEPT !.rinit = IF inits THEN e.n ELSE @,
                 !.init  = @ \/ inits,
                 !.floor = IF inits THEN e.n ELSE @,
@@ -125,6 +161,25 @@ ObsReq(o, e) ==
 
 ObsArrive(o, e) == IF e.k = "resp" THEN ObsResp(o, e) ELSE ObsReq(o, e)
 
+(* Which clauses are evaluated non-vacuously on event e in summary o (their  *)
+(* antecedent holds): statistics for the evidence, no influence on verdicts. *)
+Applicable(o, e) ==
+  LET proj == e.idx # -1 /\ o.pidx # -1 IN
+  IF e.k = "resp"
+    THEN (IF ~e.auth THEN {"C12_ForgeryNoEffect"} ELSE {})
+         \cup (IF e.auth /\ o.init /\ proj THEN {"C12_ResponseNoEffect"} ELSE {})
+         \cup (IF e.auth /\ ~o.init /\ ~o.hasEcho THEN {"C12_UninitialisedNeedsEcho"} ELSE {})
+    ELSE (IF ~e.auth \/ (o.init /\ e.n \in o.forged /\ MustAccept(o, e)) THEN {"C12_ForgeryNoEffect"} ELSE {})
+         \cup (IF e.auth /\ ~o.init THEN {"C12_UninitialisedNeedsEcho"} ELSE {})
+         \cup (IF e.auth /\ o.init /\ e.n \in o.acc THEN {"C12_AcceptAtMostOnce"} ELSE {})
+         \cup (IF e.auth /\ o.init /\ e.n \notin o.acc /\ e.n < o.floor
+                THEN IF o.acc # {} /\ e.n <= o.hi - o.W THEN {"C12_BelowWindowRejected"}
+                     ELSE {"C12_UninitialisedNeedsEcho"}
+                ELSE {})
+         \cup (IF o.init /\ MustAccept(o, e)
+                THEN IF e.n > o.hi THEN {"C12_AboveAllAccepted"} ELSE {"C12_InWindowUnseenAccepted"}
+                ELSE {})
+
 (***************************************************************************)
 (* Implementation-shaped model                                             *)
 (***************************************************************************)
@@ -146,16 +201,18 @@ Step(s, w, n, auth, echo) ==                                                \* u
            THEN [res |-> "acc", st |-> Strike(s, w, n)]
            ELSE [res |-> "rej", st |-> s]
 
-StepResp(s, n) ==                                                          \* unprotect of an authentic response
-  IF ~s.init /\ s.echo
+StepResp(s, n, auth) ==                                                    \* unprotect of a response
+  IF ~auth THEN [res |-> "rej", st |-> s]
+  ELSE IF ~s.init /\ s.echo
     THEN [res |-> "acc", st |-> [s EXCEPT !.init = TRUE, !.index = n, !.seen = {n}]]
     ELSE [res |-> "acc", st |-> s]
 
 ProjIdx(s) == IF s.init THEN s.index ELSE -2
 ProjSeen(s) == IF s.init THEN s.seen ELSE {}
 
-Event(k, n, auth, echo, r) ==
-  [k |-> k, n |-> n, auth |-> auth, echo |-> echo, res |-> r.res, idx |-> ProjIdx(r.st), seen |-> ProjSeen(r.st)]
+Event(k, c, n, how, echo, r) ==
+  [k |-> k, c |-> c, n |-> n, auth |-> (how = "genuine"), how |-> how, echo |-> echo,
+   res |-> r.res, idx |-> ProjIdx(r.st), seen |-> ProjSeen(r.st)]
 
 VARIABLES st,    \* model state
           obs,   \* monitor summary
@@ -165,35 +222,47 @@ VARIABLES st,    \* model state
 
 vars == <<st, obs, len, act, hist>>
 
-NoAct == [k |-> "start", n |-> -1, auth |-> FALSE, echo |-> "none", res |-> "start", idx |-> -1, seen |-> {}]
+NoAct == [k |-> "start", c |-> 0, n |-> -1, auth |-> FALSE, how |-> "start", echo |-> "none", res |-> "start", idx |-> -1, seen |-> {}]
 
 Init == \E w \in Ws, i \in BOOLEAN, h \in BOOLEAN :
           /\ st = StInit(i, h) /\ obs = ObsInit(w, i, h) /\ len = 0 /\ act = NoAct /\ hist = << >>
 
-Arrive(n, auth, echo) ==
+Arrive(c, n, how, echo) ==
   /\ len < MaxLen
-  /\ LET r == Step(st, obs.W, n, auth, echo)
-         e == Event("req", n, auth, echo, r)
+  /\ LET r == Step(st, obs.W, n, how = "genuine", echo)
+         e == Event("req", c, n, how, echo, r)
      IN /\ st' = r.st
         /\ obs' = ObsArrive(obs, e)
         /\ act' = e
   /\ len' = len + 1
   /\ UNCHANGED hist
 
-Resp(n) ==
+Resp(n, how) ==
   /\ len < MaxLen
-  /\ LET r == StepResp(st, n)
-         e == Event("resp", n, TRUE, "none", r)
+  /\ LET r == StepResp(st, n, how = "genuine")
+         e == Event("resp", 1, n, how, "none", r)
      IN /\ st' = r.st
         /\ obs' = ObsArrive(obs, e)
         /\ act' = e
   /\ len' = len + 1
   /\ UNCHANGED hist
 
-Next == \/ \E n \in 0..MaxN, auth \in BOOLEAN, echo \in Echos : Arrive(n, auth, echo)
-        \/ \E n \in 0..MaxN : Resp(n)
+Next == \/ \E c \in Clients, n \in 0..MaxN, how \in {"genuine"} \cup Hows, echo \in EchoKinds : Arrive(c, n, how, echo)
+        \/ \E n \in 0..MaxN, how \in {"genuine"} \cup (Hows \cap RespForgeries) : Resp(n, how)
 
 Spec == Init /\ [][Next]_vars
+
+(* For -simulate: the same behaviours, but the members of a class the model  *)
+(* does not distinguish (forgery flavour, sender) and the number are drawn at *)
+(* random by TLC (RandomElement follows -seed) instead                       *)
+(* of being enumerated as successors (TLC generates every successor of every *)
+(* step before it picks one).                                                *)
+SimNext == \/ \E auth \in BOOLEAN, echo \in EchoKinds :
+                Arrive(RandomElement(Clients), RandomElement(0..MaxN), IF auth THEN "genuine" ELSE RandomElement(Hows), echo)
+           \/ \E auth \in BOOLEAN :
+                Resp(RandomElement(0..MaxN), IF auth THEN "genuine" ELSE RandomElement(Hows \cap RespForgeries))
+
+SimSpec == Init /\ [][SimNext]_vars
 
 View == <<st, obs, len>>
 
@@ -207,11 +276,11 @@ EdgeStep(r, e) ==
   /\ UNCHANGED <<obs, len, act>>
 
 EdgeNext ==
-  \/ \E n \in 0..MaxN, auth \in BOOLEAN, echo \in Echos :
-       /\ (st.init => echo # "stale")      \* on an initialised window the Echo option is ignored anyway
-       /\ LET r == Step(st, obs.W, n, auth, echo) IN EdgeStep(r, Event("req", n, auth, echo, r))
-  \/ \E n \in 0..MaxN :
-       LET r == StepResp(st, n) IN EdgeStep(r, Event("resp", n, TRUE, "none", r))
+  \/ \E c \in Clients, n \in 0..MaxN, how \in {"genuine"} \cup Hows, echo \in EchoKinds :
+       /\ (st.init => echo \in {"none", "fresh"})   \* on an initialised window the Echo option is ignored anyway
+       /\ LET r == Step(st, obs.W, n, how = "genuine", echo) IN EdgeStep(r, Event("req", c, n, how, echo, r))
+  \/ \E n \in 0..MaxN, how \in {"genuine"} \cup (Hows \cap RespForgeries) :
+       LET r == StepResp(st, n, how = "genuine") IN EdgeStep(r, Event("resp", 1, n, how, "none", r))
 
 EdgeSpec == Init /\ [][EdgeNext]_vars
 EdgeView == <<st, obs.W, obs.init, obs.hasEcho>>
